@@ -46,6 +46,60 @@ class AnalysisError(Exception):
     pass
 
 
+import re as _re
+_CLOSURE_TY = _re.compile(r"\{(closure|coroutine)@[^}]*\}")
+
+
+def norm_ty(t):
+    """Type rendering without source positions (closure types print `{closure@file:line:col}`)."""
+    return _CLOSURE_TY.sub(r"{\1}", t)
+
+
+def upvar_key(place):
+    return [str(e.get("i", e.get("f"))) if isinstance(e, dict) and "f" in e else "*" if e == "*" else "?" for e in place["p"] if e != "*"]
+
+
+def callee_tag(path):
+    """Module-insensitive name of a callee: last two segments of the normalised path (type::method or mod::fn)."""
+    p = norm(path)
+    if p.startswith("<") and ">::" in p:
+        head, _, meth = p.rpartition(">::")
+        ty = head[1:].split(" as ")[0].split("<")[0].split("::")[-1]
+        tr = head.split(" as ")[-1].split("<")[0].split("::")[-1] if " as " in head else ""
+        return "%s/%s::%s" % (ty, tr, meth)
+    return "::".join(p.split("::")[-2:])
+
+
+_CANON_NAMES = None
+_ALIAS = {}          # current path -> audited path (functions re-bound after a rename / move)
+
+
+def canon_names():
+    """tables/fn_table.json: audited parameter / capture names by position and function fingerprints (tools/mk_fn_table.py)."""
+    global _CANON_NAMES
+    if _CANON_NAMES is None:
+        _CANON_NAMES = {}
+        if not os.environ.get("VERIF_NO_FN_TABLE"):
+            try:
+                with open(os.path.join(VERIF, "tables", "fn_table.json")) as fh:
+                    _CANON_NAMES = json.load(fh)
+            except OSError:
+                pass
+    return _CANON_NAMES
+
+
+def alias(path):
+    if not _ALIAS:
+        return path
+    r = _ALIAS.get(path)
+    if r is not None:
+        return r
+    i = path.find("::{closure")
+    if i > 0 and path[:i] in _ALIAS:
+        return _ALIAS[path[:i]] + path[i:]
+    return path
+
+
 def suffix_match(path, pat):
     """`pat` matches the tail of `path` at a path-segment boundary (so `Stream::iter` does not match
     `CanonStream::iter`).  Patterns starting with a non-identifier character (`>::f`) match as plain suffixes."""
@@ -230,7 +284,7 @@ class Call:
         self.bb = bb
         self.term = term
         self.callee = c
-        self.path = norm(c["path"])
+        self.path = alias(norm(c["path"]))
         self.cid = c["id"]
         self.full = c.get("full", c["path"])
         self.kind = c.get("kind")
@@ -277,6 +331,37 @@ class Fn:
         self._pred = None
         self._calls = None
         self._dom = None
+        self.renamed = {}
+        self._canonicalise_names()
+
+    def _canonicalise_names(self):
+        """Parameters (and closure captures) get the names they had when the rules were audited, by position, as long
+        as the parameter type list is unchanged: a renamed parameter is the same parameter; two swapped arguments of
+        the same type keep their positions' audited names, so a rule about `prev` vs `current` follows the position."""
+        ent = canon_names().get(self.path)
+        if not ent:
+            return
+        if self.argc and ent.get("names"):
+            tys = [norm_ty(t) for t in self.locals[1:self.argc + 1]]
+            want = ent["tys"]
+            mapping = None
+            if tys == want:
+                mapping = {i + 1: n for i, n in enumerate(ent["names"])}
+            elif sorted(tys) == sorted(want) and len(set(tys)) == len(tys):
+                mapping = {tys.index(t) + 1: n for t, n in zip(want, ent["names"])}     # reordered, types unique
+            if mapping:
+                for l, n in mapping.items():
+                    if n and self.names.get(l) != n:
+                        self.renamed[l] = (self.names.get(l), n)
+                        self.names[l] = n
+                        self.name_places = [(n if (pl["l"] == l and not pl["p"]) else nm, pl) for nm, pl in self.name_places]
+        if self.kind == "Closure" and ent.get("upvars"):
+            cur = [(i, nm, pl) for i, (nm, pl) in enumerate(self.name_places) if pl["l"] == 1 and pl["p"]]
+            if len(cur) == len(ent["upvars"]) and all(upvar_key(pl) == k for (_, _, pl), (k, _) in zip(cur, ent["upvars"])):
+                for (i, nm, pl), (_, n) in zip(cur, ent["upvars"]):
+                    if n != nm:
+                        self.renamed[("upvar", i)] = (nm, n)
+                        self.name_places[i] = (n, pl)
 
     def loc(self):
         return self.o["body_sp"].split(": ")[0]
@@ -486,6 +571,65 @@ class Facts:
                         self.unsafe.append(o)
         self._cg = None
         self._trait_impls = None
+        self.rebound = {}
+        self._rebind_renamed()
+
+    def _rebind_renamed(self):
+        """A function of the audited table that no longer exists under its path is re-bound to the unique NEW function
+        (one that is not in the table) of the same crate with the same parameter/return types and a matching callee
+        fingerprint: a rename or a move to another module is a behaviour-preserving edit and must not lose the anchor.
+        The re-bound function (and its call sites and closures) is then seen under the audited path."""
+        table = canon_names()
+        if not table:
+            return
+        _ALIAS.clear()
+        present = {p: fs[0] for p, fs in self.by_path.items() if len(fs) == 1}
+        missing = [p for p, e in table.items() if p not in self.by_path and "::{closure" not in p and e["crate"] in self.crates]
+        new = [f for p, f in present.items() if p not in table and "::{closure" not in p and f.kind != "Closure"
+               and not any("derive" in x for x in f.ex)]
+        if not missing or not new:
+            return
+        cand = []
+        for P in missing:
+            e = table[P]
+            for f in new:
+                if f.crate != e["crate"] or f.argc != len(e["tys"]):
+                    continue
+                if [norm_ty(t) for t in f.locals[1:f.argc + 1]] != e["tys"] or norm_ty(f.locals[0]) != e["ret"]:
+                    continue
+                a, b = set(e.get("callees", ())), {callee_tag(c.path) for c in f.calls}
+                same_name = P.split("::")[-1] == f.path.split("::")[-1]
+                if not a and not b:
+                    score = 1.0 if same_name else 0.5
+                else:
+                    score = len(a & b) / float(len(a | b))
+                    if same_name:
+                        score = min(1.0, score + 0.3)
+                cand.append((score, P, f))
+        cand.sort(key=lambda x: -x[0])
+        usedP, usedF = set(), set()
+        for score, P, f in cand:
+            if score < 0.6 or P in usedP or f.id in usedF:
+                continue
+            rivals = [s2 for s2, P2, f2 in cand if (P2 == P) != (f2.id == f.id) and P2 not in usedP and f2.id not in usedF and s2 > score - 0.15]
+            if rivals:
+                continue
+            usedP.add(P)
+            usedF.add(f.id)
+            _ALIAS[f.path] = P
+            self.rebound[P] = f.path
+        if not _ALIAS:
+            return
+        for f in list(self.fns.values()):
+            np = alias(f.path)
+            if np != f.path:
+                self.by_path[f.path].remove(f)
+                if not self.by_path[f.path]:
+                    del self.by_path[f.path]
+                f.path = np
+                self.by_path.setdefault(np, []).append(f)
+                f._canonicalise_names()
+            f._calls = None
 
     # lookups ---------------------------------------------------------------
     def fn(self, suffix, crate=None):
